@@ -11,13 +11,12 @@ from mc.framework import Result
 
 ID = "C20"
 LEVEL = "model_checking"
-SERIAL = True
 RULE = ("explicit-state BFS to fixpoint: transitions are real DrawSet.add/remove calls (present and absent "
         "elements) over universes of 3 and 4 (quick) / 3, 4 and 5 (thorough) edge tuples; in every state len, iteration, "
         "membership and every RNG resolution of draw() are compared with a plain set; a state is "
         "non-trivial when it is a distinct ordered arrangement with >= 2 members")
 BOUNDS = {"quick": "universes of 3, 3 and 4 elements (two of them containing a pair and its reversal), full reachable state space (fixpoint)",
-          "thorough": "universe of 4 and of 5 elements, full reachable state space (fixpoint)"}
+          "thorough": "universes of 3, 3, 4, 5 and 6 elements, full reachable state space (fixpoint)"}
 ASSUMPTIONS = ["elements are hashable tuples, as in rewire(); draw() on an empty set and the exception type "
                "of remove(absent) are unspecified by the property and not checked",
                "canonical state = iteration order + repr of every instance attribute (over-fine on purpose)"]
@@ -32,6 +31,7 @@ def instances(tier, seed):
     else:
         yield {"universe": [(0, 1), (0, 2), (1, 2), (2, 1)]}
         yield {"universe": [(1, 2), (0, 5), (3, 4), (2, 1), (5, 0)]}
+        yield {"universe": [(0, 1), (1, 0), (0, 2), (2, 0), (1, 2), (2, 1)]}
 
 
 def canon(s):
@@ -95,7 +95,7 @@ def run_instance(inst, tier):
     s0, m0 = build([])
     seen = {canon(s0): []}
     frontier = deque([(s0, m0, [])])
-    cap = 20000
+    cap = 400000
     while frontier:
         s, model, hist = frontier.popleft()
         res.states += 1
